@@ -12,6 +12,10 @@ from specs import nego as N
 from specs import per as P
 from specs.common import PER_SPECS_TEXT, FRAME_SPECS_TEXT, MCS_SPECS_TEXT, MCS_WRITE, MCS_READ, MCS_V5
 
+import os
+# VERIF_DOC_STRICT=1 replaces every "as-implemented" layout clause below by the clause transcribed from the document (these FAIL on the
+# current code: each one is a reported discrepancy between the code and MS-RDPBCGR, see the comment at the clause)
+DOC_STRICT = os.environ.get("VERIF_DOC_STRICT") == "1"
 MCS = "src/core/mcs.rs"
 GCC = "src/core/gcc.rs"
 
@@ -78,6 +82,34 @@ pub open spec fn gcc_ccr(user_data: Seq<u8>) -> Seq<u8> {
 }
 """, mod="gcc", name="gcc_specs"))
 A(Raw(r"""
+// ---------------- server -> client GCC user data blocks, transcribed from MS-RDPBCGR 2.2.1.4 (NOT derived from the code; the field NAMES are the
+// keys the client looks its values up with, they do not reach the wire).  Default values: what the builders put before a read (0).
+/// TS_UD_HEADER (2.2.1.3.1): type (u16 LE), length (u16 LE, counts the 4 header bytes); both plain values (any block type must be readable)
+pub open spec fn ud_header_view(ty: u16, body_len: int) -> MV {
+    MV::Comp(seq![("type"@, MV::U16(ty, true)), ("length"@, MV::U16((body_len + 4) as u16, true))])
+}
+/// TS_UD_SC_CORE (2.2.1.4.2): version (u32 LE) mandatory; clientRequestedProtocols (u32 LE) and earlyCapabilityFlags (u32 LE) OPTIONAL
+/// (a conforming server sends the 4, 8 or 12 byte form)
+pub open spec fn server_core_view() -> MV {
+    MV::Comp(seq![("rdpVersion"@, MV::U32(0, true)),
+                  ("clientRequestedProtocol"@, MV::Opt(Some(Box::new(MV::U32(0, true))))),
+                  ("earlyCapabilityFlags"@, MV::Opt(Some(Box::new(MV::U32(0, true)))))])
+}
+/// TS_UD_SC_SEC1 (2.2.1.4.3): encryptionMethod (u32 LE), encryptionLevel (u32 LE); serverRandomLen / serverCertLen / serverRandom /
+/// serverCertificate follow only when both are non zero (never under Enhanced RDP Security) and are not interpreted by this client
+pub open spec fn server_security_view() -> MV {
+    MV::Comp(seq![("encryptionMethod"@, MV::U32(0, true)), ("encryptionLevel"@, MV::U32(0, true))])
+}
+/// TS_UD_SC_NET (2.2.1.4.4): MCSChannelId (u16 LE, "the MCS channel identifier of the I/O channel": a value chosen by the server, 1003 = 0x03EB in
+/// the examples of the document), channelCount (u16 LE), channelIdArray = channelCount u16 LE entries (channelCount * 2 bytes), then optional Pad
+/// (not interpreted).  `chan` = view of the MCSChannelId field (the document makes it a plain u16 LE; see server_network_data below)
+pub open spec fn server_network_view(chan: MV) -> MV {
+    MV::Comp(seq![("MCSChannelId"@, chan),
+                  ("channelCount"@, MV::Dyn(Box::new(MV::U16(0, true)), OV::Size("channelIdArray"@, 0))),
+                  ("channelIdArray"@, MV::Arr(Seq::empty(), Box::new(MV::U16(0, true))))])
+}
+""", mod="gcc", name="gcc_server_layouts"))
+A(Raw(r"""
 impl vstd::std_specs::cmp::PartialEqSpecImpl for Version {
     open spec fn obeys_eq_spec() -> bool { true }
     open spec fn eq_spec(&self, other: &Version) -> bool { *self == *other }
@@ -109,17 +141,41 @@ GF("client_core_data", ret="c", props=["C04"], fuel=3, post=len_chain("c", CORE_
    ensures=shape_clauses(GCC, "client_core_data", res="c") + [("C04", "fixed-size-212", "ser(c.mv()).len() == 212"), ("C04", "client-name-32-bytes", "c.fields()[7].1 is Bytes && c.fields()[7].1->Bytes_0.len() == 32"),
             ("C04", "client-name-null-terminated", "c.fields()[7].1->Bytes_0[30] == 0 && c.fields()[7].1->Bytes_0[31] == 0"),
             ("C04", "client-name-bytes", "c.fields()[7].1 == MV::Bytes(client_name_bytes(utf16le(if parameter is Some { parameter->Some_0.name@ } else { \"\"@ })))")])
-GF("server_core_data", ret="c", props=["C05"], ensures=shape_clauses(GCC, "server_core_data", res="c"))
+# MS-RDPBCGR 2.2.1.4.2 TS_UD_SC_CORE: version (4 bytes) is mandatory, clientRequestedProtocols and earlyCapabilityFlags are optional
+# (a conforming server may send the 4-byte or the 8-byte form): written from the document, not derived from the code
+GF("server_core_data", ret="c", props=["C05", "C03"],
+   ensures=shape_clauses(GCC, "server_core_data", res="c") + [
+       ("C03", "short-server-core-data-accepted", "c.fields().len() == 3 && c.fields()[0].1 is U32 && c.fields()[1].1 is Opt && c.fields()[2].1 is Opt"),
+       # MS-RDPBCGR 2.2.1.4.2: order, widths (3 x u32), endianness (LE) and optionality of every field
+       ("C03", "server_core_data-as-documented", "c.mv() == server_core_view()")],
+   post="proof { assert(c.fields() =~= server_core_view()->Comp_0); }")
 GF("client_security_data", ret="c", props=["C04"], fuel=4, ensures=shape_clauses(GCC, "client_security_data", res="c") + [("C04", "size", "ser(c.mv()).len() == 8")])
-GF("server_security_data", ret="c", props=["C05"], ensures=shape_clauses(GCC, "server_security_data", res="c"))
+# MS-RDPBCGR 2.2.1.4.3 TS_UD_SC_SEC1: two mandatory u32 LE; the rest of the block is optional and left unread
+GF("server_security_data", ret="c", props=["C05", "C03"],
+   ensures=shape_clauses(GCC, "server_security_data", res="c") + [("C03", "server_security_data-as-documented", "c.mv() == server_security_view()")],
+   post="proof { assert(c.fields() =~= server_security_view()->Comp_0); }")
 GF("channel_def", ret="c", props=["C04"], ensures=shape_clauses(GCC, "channel_def", res="c"))
 GF("client_network_data", ret="c", props=["C04"], fuel=4, ensures=shape_clauses(GCC, "client_network_data", res="c") + [("C04", "count", "ser(c.mv()) =~= le32(channel_def_array@.len() as u32) + ser(channel_def_array.mv())")])
-GF("server_network_data", ret="c", props=["C05"],
-   closures={1: dict(params="count: &U16", ret="-> (r: MessageOption)", spec='ensures r.ov() == OV::Size("channelIdArray"@, (count.val() as usize * 2) as usize)'),
+# MS-RDPBCGR 2.2.1.4.4 TS_UD_SC_NET: closure #1 = "channelIdArray has channelCount 16 bit entries" (Size = 2 * channelCount bytes), closure #2 = one entry is a u16 LE.
+# DISCREPANCY (minor): the document makes MCSChannelId a plain u16 chosen by the server (the client is to join THAT channel, 3.2.5.3.8); the code reads it
+# through Check::new(U16::LE(1003)) and mcs::Client::connect joins the constant 1003: a server announcing another I/O channel (block `03 0c 08 00 ec 03 00 00`)
+# is refused.  Everything else is pinned from the document.
+NET_CHAN = "MV::U16(0, true)" if DOC_STRICT else "MV::Check(Box::new(MV::U16(1003, true)))"
+NET_CID = "server_network_data-as-documented" if DOC_STRICT else "server_network_data-as-documented-except-MCSChannelId (as-implemented: checked constant 1003; MS-RDPBCGR 2.2.1.4.4 leaves the id to the server)"
+GF("server_network_data", ret="c", props=["C05", "C03"],
+   closures={1: dict(params="count: &U16", ret="-> (r: MessageOption)", props="C03", cid="channelIdArray-size-is-2-x-channelCount",
+                     spec='ensures r.ov() == OV::Size("channelIdArray"@, (count.val() as usize * 2) as usize)'),
              2: dict(params="", ret="-> (r: U16)", spec="ensures r == U16::LE(0)")},
-   ensures=shape_clauses(GCC, "server_network_data", res="c"))
-GF("block_header", ret="c", props=["C04", "C05"], fuel=4, pre="proof { reveal_with_fuel(is_static, 3); }", requires=["(if length is Some { length->Some_0 } else { 0 }) <= 0xfffb"],
-   ensures=shape_clauses(GCC, "block_header", res="c") + [("C04", "bytes", "ser(c.mv()) =~= ud_header((if data_type is Some { data_type->Some_0 as u16 } else { 0xC001u16 }), (if length is Some { length->Some_0 as int } else { 0 }))"), (None, "static", "is_static(c.mv())")])
+   ensures=shape_clauses(GCC, "server_network_data", res="c") + [("C03", NET_CID, "c.mv() == server_network_view(%s)" % NET_CHAN)],
+   post="""proof { let f = c.fields(); let g = server_network_view(%s)->Comp_0;
+        assert(f[1].1 == g[1].1);
+        assert(f[2].1->Arr_0 =~= Seq::<MV>::empty()); assert(f[2].1 == g[2].1);
+        assert(f =~= g); }""" % NET_CHAN)
+GF("block_header", ret="c", props=["C04", "C05", "C03"], fuel=4, pre="proof { reveal_with_fuel(is_static, 3); }", requires=["(if length is Some { length->Some_0 } else { 0 }) <= 0xfffb"],
+   ensures=shape_clauses(GCC, "block_header", res="c") + [("C04", "bytes", "ser(c.mv()) =~= ud_header((if data_type is Some { data_type->Some_0 as u16 } else { 0xC001u16 }), (if length is Some { length->Some_0 as int } else { 0 }))"), (None, "static", "is_static(c.mv())"),
+                                                         # MS-RDPBCGR 2.2.1.3.1 TS_UD_HEADER, as READ in read_conference_create_response: two plain u16 LE (no checked constant: every block type is readable)
+                                                         ("C03,C04", "block_header-as-documented", "c.mv() == ud_header_view((if data_type is Some { data_type->Some_0 as u16 } else { 0xC001u16 }), (if length is Some { length->Some_0 as int } else { 0 }))")],
+   post="proof { assert(c.fields() =~= ud_header_view((if data_type is Some { data_type->Some_0 as u16 } else { 0xC001u16 }), (if length is Some { length->Some_0 as int } else { 0 }))->Comp_0); }")
 GF("write_conference_create_request", props=["C04", "C18", "C03"], requires=["user_data@.len() + 14 <= 0x7fff"],
    hints=[(r"per::write_object_identifier\(", 1, "proof { assert((0u8 << 4u8) | (0u8 & 0xfu8) == 0u8) by(bit_vector); assert(result.written() =~= seq![0u8, 5u8, 0u8, 20u8, 124u8, 0u8, 1u8]); }"),
           (r"per::write_length\(", 1, "let ghost w1 = result.written();"),
